@@ -4,10 +4,12 @@ from .common import *
 
 FMTS = ("list", "array", "narrowarray", "dict", "valueof", "falsydict", "emptystr")
 # presentations of the common-factor family (values around 1e9: each fits a signed 32-bit integer, sums of two and the bin size do not)
-FMTS_G = ("list", "int32array", "uint32array", "int64array", "iddict")
+FMTS_G = ("list", "int32array", "uint32array", "int64array", "iddict", "npscalars")
+# seeded families (values large enough for narrow integer types to matter) also present the numbers as numpy SCALARS inside a plain list / a dict
+FMTS_FAM = FMTS + ("npscalars", "npscalardict")
 
 
-def part_calls(g, rng, q):
+def part_calls(g, rng, q, fmts=FMTS):
     n, k = len(g["vals"]), g["k"]
     base = [call(a) for a in ("greedy", "roundrobin", "kk", "ckk", "snp", "rnp")] + [call("multifit", it=10), call("multifit", it=2)]
     base += [call("cg", o=o, sw=sw) for o, sw in (("diff", "1101"), ("maxsum", "1111"), ("minsum", "0101"))]
@@ -19,7 +21,7 @@ def part_calls(g, rng, q):
     cs = []
     for c in base:
         if feasible(c["alg"], n, k):
-            for f in FMTS:
+            for f in fmts:
                 c2 = dict(c); c2["fmt"] = f; cs.append(c2)
     return cs
 
@@ -40,7 +42,7 @@ def run(ck):
         g["calls"] = part_calls(g, ck.rng, q); groups.append(g)
     for i, g in enumerate(gen.part_families(ck.rng, 150 if q else 3000, maxn=9, maxv=60, maxk=4)):
         g["ilp"] = (i % 30 == 0)
-        g["calls"] = part_calls(g, ck.rng, q); g["watchdog"] = 10; groups.append(g)
+        g["calls"] = part_calls(g, ck.rng, q, FMTS_FAM); g["watchdog"] = 10; groups.append(g)
     groups += [dict(g, calls=[dict(c, fmt=f) for c in g["calls"] for f in FMTS]) for g in witness_groups(ck)]
     for i in range(60 if q else 1500):      # common-factor family: 3-8 values <= 21, presented multiplied by 1e8 as 32/64-bit arrays, list, dict
         g = {"vals": [ck.rng.randint(1, 21) for _ in range(ck.rng.randint(3, 8))], "k": ck.rng.choice([2, 3, 3, 4]), "mul": 10 ** 8}
@@ -69,11 +71,11 @@ def run(ck):
         groups.append(g)
     for g in gen.pack_families(ck.rng, 200 if q else 4000, maxn=12):
         g = dict(g); g["orc"] = 0
-        g["calls"] = [pcall(a, f, extra=False) for a in PACKERS for f in FMTS]
+        g["calls"] = [pcall(a, f, extra=False) for a in PACKERS for f in FMTS_FAM]
         groups.append(g)
     for g in gen.cover_families(ck.rng, 200 if q else 4000, maxn=25):
         g = dict(g); g["orc"] = 0
-        g["calls"] = [pcall(a, f, extra=False) for a in COVERS for f in FMTS]
+        g["calls"] = [pcall(a, f, extra=False) for a in COVERS for f in FMTS_FAM]
         groups.append(g)
     for g in gen.gscale_families(ck.rng, 150 if q else 4000, cover=False):
         g = dict(g); g["orc"] = 0; g.pop("fmts")
@@ -84,7 +86,7 @@ def run(ck):
         g["calls"] = [pcall(a, f, extra=False) for a in COVERS for f in FMTS_G]
         groups.append(g); ck.cat("common_factor_1e8")
     ck.rule = ("every algorithm is called on every input of a TLC-enumerated universe (bags n<=5, v<=4, k<=4; sequences for packing/covering) in seven presentations: "
-               "plain list, numpy array, narrow-dtype numpy array, dict with string names, list of integer names + value function (names unrelated to values), dicts whose largest item is named 0 / the empty string (falsy names); TLC compares the bags of sums "
+               "plain list, numpy array, narrow-dtype numpy array, dict with string names, list of integer names + value function (names unrelated to values), dicts whose largest item is named 0 / the empty string (falsy names), and - on the seeded families - a plain list / a dict whose numbers are numpy scalars of a narrow integer type; TLC compares the bags of sums "
                "and checks the named results over the names; plus seeded families; plus a common-factor family (values <= 21 presented multiplied by about 1e8 as int32 / uint32 / int64 arrays, list and dict: every value fits 32 bits, "
                "sums and bin sizes do not; dividing the answers by the factor is exact, so TLC judges the small numbers). non-trivial = distinct input with >=2 items")
     run_pack_groups(ck, groups, {"C07"}, "C07 packers / covers across presentations", chunk=6000)
